@@ -13,12 +13,13 @@ TECHNIQUE = ("Lean 4 theorems over byte-exact models of the lease records, the v
              "serializers and the add/renew functions of mutable and immutable containers; differential correspondence of "
              "add_lease / renew_lease / data-write histories (lease lists and raw container bytes) against a real StorageServer "
              "over v1 and v2, mutable and immutable containers; monitor scans raw bytes for secrets")
-LEVEL_TEXT = ("renew-or-add and no-backdating (mutable container; immutable side tied by correspondence only), unknown-secret no-op/IndexError, lease survival under data writes and container growth, "
-              "and non-interference of the container bytes in the secret for v2 containers proved in Lean; the model is tied "
-              "to the code by comparing get_leases / get_slot_leases and the raw bytes of every container after each operation.")
+LEVEL_TEXT = ("renew-or-add and no-backdating (both container kinds, renew path and add path), unknown-secret no-op/IndexError, "
+              "cancel_lease removing exactly the matching leases (mutable: holes; immutable: re-packed, count/length consistent) and the "
+              "unlink case, lease survival under data writes and container growth, and non-interference of the container bytes in "
+              "the secret for v2 containers proved in Lean; the model is tied to the code by comparing get_leases / "
+              "get_slot_leases and the raw bytes of every container after each operation.")
 LEVEL_NOTE = ("Lean kernel + standard axioms; blake2b abstract (its values are supplied to the driver as a table computed by nacl); "
-              "timing_safe_compare modelled as equality; expiry times < 2^32; cancel_lease is modelled and tied by correspondence "
-              "(its Lean theorems cover the unknown-secret case and WF/data preservation only).")
+              "timing_safe_compare modelled as equality; expiry times < 2^32 and lease counts < 2^32 - 1 (struct.error otherwise).")
 RULE = ("seeded histories of add_lease / renew_lease (repeated, fresh and unknown secrets) / cancel_lease (holes in the lease table) / read-test-write data writes over buckets "
         "holding mutable (v1 fabricated, v2) or immutable (v1, v2 fabricated) containers with 0..10 leases and a forward-moving clock; "
         "a case is one operation; distinct = distinct (history index, op index); non-trivial = the bucket holds a share with >= 1 lease")
